@@ -1,0 +1,20 @@
+//go:build verif
+
+package verifapi
+
+import "github.com/deepteams/webp/internal/bitio"
+
+// Boolean (arithmetic) coder of internal/bitio, re-exported for the external
+// verification harness (suite "boolcoder").
+
+// BoolWriter mirrors bitio.BoolWriter.
+type BoolWriter = bitio.BoolWriter
+
+// BoolReader mirrors bitio.BoolReader.
+type BoolReader = bitio.BoolReader
+
+// NewBoolWriter is bitio.NewBoolWriter.
+func NewBoolWriter(expectedSize int) *BoolWriter { return bitio.NewBoolWriter(expectedSize) }
+
+// NewBoolReader is bitio.NewBoolReader.
+func NewBoolReader(data []byte) *BoolReader { return bitio.NewBoolReader(data) }
